@@ -19,6 +19,12 @@ def gen_model(mode, n, inner=1, nested=False, vals=None):
 
 def hook_model(on_what):
     hooks = [{"uses": "acts.core.msg", "key": "h_" + ev, "on": ev} for ev in ("created", "completed", "before_update", "updated", "step")]
+    if on_what in ("step-block", "step-generator"):
+        # hooks on the step AND on the workflow (other keys); the step's acts sit below a block / are generated at run time
+        whooks = [{"uses": "acts.core.msg", "key": "w_" + ev, "on": ev} for ev in ("before_update", "updated")]
+        inner = (scen.block("blk", "parallel", [scen.irq("a1"), scen.irq("a2"), scen.irq("a3")]) if on_what == "step-block" else
+                 {"id": "gen", "uses": "acts.core.parallel", "params": {"in": [1, 2, 3], "acts": [{"uses": "acts.core.irq", "key": "r"}]}})
+        return scen.wf("m", [scen.step("s1", [inner], setup=hooks)], setup=whooks)
     if on_what == "step":
         return scen.wf("m", [scen.step("s1", [scen.irq("a1"), scen.irq("a2")], setup=hooks), scen.step("s2", [scen.irq("a3")])])
     if on_what == "workflow":
@@ -157,6 +163,8 @@ def run_hooks(I, res, prop, on_what, policy):
     # optional push into the open step
     pushed = 0
     if I.path.choose(2, "push?") == 1:
+        if on_what in ("step-block", "step-generator"):
+            raise PathInfeasible("no push variant for nested models")
         s1 = [t for t in r.tasks() if t["nid"] == "s1"][0]
         before = len([t for t in r.tasks() if t["kind"] == "Act" and not t["data"].get("$is_event_processed")])
         rr = W.action(r.pid, s1["tid"], "Push", {"uses": "acts.core.irq", "key": "pushed"})
@@ -177,10 +185,17 @@ def run_hooks(I, res, prop, on_what, policy):
     res.witnesses += 1
     cnt = {}
     for m in W.messages:
-        if str(m["key"]).startswith("h_"):
+        if str(m["key"]).startswith(("h_", "w_")):
             cnt[m["key"]] = cnt.get(m["key"], 0) + 1
     acts_in_s1 = 2 + pushed
-    if on_what == "step":
+    if on_what in ("step-block", "step-generator"):
+        # every act beneath the step is an act of the step: the step's update hooks fire as often as the workflow's (single step), once per act task
+        n_acts = len([t for t in r.tasks() if t["kind"] == "Act" and not t["data"].get("$is_event_processed")])
+        want = {"h_created": 1, "h_completed": 1, "h_step": 1, "h_before_update": cnt.get("w_before_update", 0), "h_updated": cnt.get("w_updated", 0)}
+        for k in ("w_before_update", "w_updated"):
+            if cnt.get(k, 0) != n_acts:
+                r.viol("hook:%s:workflow-%s:fired=%d/%d" % (on_what, k[2:], cnt.get(k, 0), n_acts), "workflow hook %s fired %d times for %d act tasks" % (k[2:], cnt.get(k, 0), n_acts))
+    elif on_what == "step":
         want = {"h_created": 1, "h_completed": 1, "h_before_update": acts_in_s1, "h_updated": acts_in_s1, "h_step": 1}
     elif on_what == "workflow":
         want = {"h_created": 1, "h_completed": 1, "h_before_update": 3 + pushed, "h_updated": 3 + pushed, "h_step": 2}
@@ -217,7 +232,7 @@ def confirm_gen(v, model, kind):
     if kind == "hooks":
         cnt = {}
         for m in msgs:
-            if str(m["key"]).startswith("h_"):
+            if str(m["key"]).startswith(("h_", "w_")):
                 cnt[m["key"]] = cnt.get(m["key"], 0) + 1
         # role format hook:<on>:<ev>:fired=g/w
         parts = v.role.split(":")
